@@ -246,14 +246,26 @@ def invariant_for_seq(eng, s, seq, spec, st):
     hints = dict(spec.get("kinds", {}))
     hints["__ghost__"] = spec.get("ghost", [])
     # 1. establishment
-    st.locals["_i"] = const(0)
+    ordn = loop_ordinal(eng, s)
+    saved_i = st.locals.get("_i")
+
+    def set_i(stx, v):
+        stx.locals["_i"] = v
+        stx.locals[f"_i{ordn}"] = v
+
+    def restore_i(stx):
+        if saved_i is not None:
+            stx.locals["_i"] = saved_i
+        else:
+            stx.locals.pop("_i", None)
+    set_i(st, const(0))
     st.locals["_n"] = V(INT, n)
     eval_invariants(eng, spec, st, label + ".establish", s, True)
     # 2. arbitrary iteration
     st_it = st.copy()
     havoc(eng, st_it, names - {"_i"}, heap_fields, hints)
     i = fresh(INT, "_i")
-    st_it.locals["_i"] = i
+    set_i(st_it, i)
     st_it.assume(z3.And(i.term >= 0, i.term < n))
     eval_invariants(eng, spec, st_it, label, s, False)
     writes_before = set(st_it.writes)
@@ -269,20 +281,22 @@ def invariant_for_seq(eng, s, seq, spec, st):
                     if isinstance(v, V):
                         collected_kinds.setdefault(nm, v.kind)
                 if flow.kind in ("normal", "continue"):
-                    st2.locals["_i"] = V(INT, i.term + 1)
+                    set_i(st2, V(INT, i.term + 1))
                     eval_invariants(eng, spec, st2, label + ".preserve", s, True)
                 elif flow.kind == "break":
-                    st2.locals.pop("_i", None)
+                    restore_i(st2)
                     yield st2, NORMAL
                 else:
+                    restore_i(st2)
                     yield st2, flow
     # 3. exit
     st_ex = st
     for k, v in collected_kinds.items():
         hints.setdefault(k, v)
     havoc(eng, st_ex, names - {"_i"}, heap_fields, hints)
-    st_ex.locals["_i"] = V(INT, n)
+    set_i(st_ex, V(INT, n))
     eval_invariants(eng, spec, st_ex, label, s, False)
+    restore_i(st_ex)
     if eng.feasible(st_ex):
         yield from eng.ex_block(s.orelse, st_ex)
 
